@@ -173,8 +173,10 @@ def build_jobs(pid, tier, seed, workdir):
             scheds = rng1.sample(scheds, cap)
         sched_stats[name] = len(scheds)
         sc = models.scenario(name)
-        for s_ in scheds:
-            jobs.append({"run": runno, "scen": sc, "sched": s_, "drain": True, "probes": spec.get("probes", 0), "tag": "tlc:" + name})
+        # the same schedules with the other branch of pay() (trampoline-xpay): every third run
+        scx = dict(sc, cfg=dict(sc["cfg"], xpay=True))
+        for k_, s_ in enumerate(scheds):
+            jobs.append({"run": runno, "scen": scx if k_ % 3 == 2 else sc, "sched": s_, "drain": True, "probes": spec.get("probes", 0), "tag": "tlc:" + name})
             runno += 1
     # 1a. thorough: random walks of TLC (-simulate) on instances far beyond exhaustive reach
     if thorough and not spec.get("direct"):
